@@ -937,55 +937,75 @@ func (rn *run) cryptCases() {
 // and non-seekable output: the string is part of an encrypted document like any other
 func (rn *run) placeholderCases() {
 	e := rn.e
-	for _, v := range []pdf.Version{pdf.V1_3, pdf.V1_5, pdf.V1_7, pdf.V2_0} {
+	for _, v := range []pdf.Version{pdf.V1_1, pdf.V1_3, pdf.V1_4, pdf.V1_5, pdf.V1_6, pdf.V1_7, pdf.V2_0} {
 		for _, seek := range []bool{true, false} {
 			for _, early := range []bool{true, false} {
-				info := map[string]any{"version": fmt.Sprint(v), "seekable": seek, "set_before_put": early}
-				m := marker(e, "placeholder")
-				mf := &seekBuf{}
-				var out io.Writer = mf
-				if !seek {
-					out = struct{ io.Writer }{mf}
-				}
-				w, err := pdf.NewWriter(out, v, &pdf.WriterOptions{UserPassword: "u"})
-				if err != nil {
-					continue
-				}
-				pages := w.Alloc()
-				w.GetMeta().Catalog.Pages = pages
-				w.Put(pages, pdf.Dict{"Type": pdf.Name("Pages"), "Kids": pdf.Array{}, "Count": pdf.Integer(0)})
-				ph := pdf.NewPlaceholder(w, len(m)+2)
-				if early {
-					ph.Set(pdf.String(append([]byte{}, m...)))
-				}
-				ref := w.Alloc()
-				if err := w.Put(ref, pdf.Dict{"S": ph, "T": pdf.String("other")}); err != nil {
-					continue
-				}
-				if !early {
-					if err := ph.Set(pdf.String(append([]byte{}, m...))); err != nil {
+				for _, nested := range []bool{false, true} {
+					info := map[string]any{"version": fmt.Sprint(v), "seekable": seek, "set_before_put": early, "string_inside_array": nested}
+					key := fmt.Sprintf("placeholder|%v|%v|%v|%v", v, seek, early, nested)
+					m := marker(e, "placeholder")
+					value := func() pdf.Native {
+						if nested {
+							return pdf.Array{pdf.Integer(1), pdf.String(append([]byte{}, m...))}
+						}
+						return pdf.String(append([]byte{}, m...))
+					}
+					mf := &seekBuf{}
+					var out io.Writer = mf
+					if !seek {
+						out = struct{ io.Writer }{mf}
+					}
+					w, err := pdf.NewWriter(out, v, &pdf.WriterOptions{UserPassword: "u"})
+					if err != nil {
+						e.Fail("writer-refuses", err.Error(), info)
 						continue
 					}
-				}
-				if err := w.Close(); err != nil {
-					continue
-				}
-				data := mf.data
-				e.Count(true, fmt.Sprintf("placeholder|%v|%v|%v", v, seek, early), "placeholder-string")
-				if bytes.Contains(data, m) {
-					e.Fail("placeholder-string-plaintext", "a String held by a pdf.Placeholder is written in plaintext into an encrypted file", info)
-					continue
-				}
-				r, err := pdf.NewReader(bytes.NewReader(data), int64(len(data)), &pdf.ReaderOptions{Password: "u"})
-				if err != nil {
-					e.Fail("placeholder-unreadable", err.Error(), info)
-					continue
-				}
-				obj, _ := r.Get(ref, true)
-				d, _ := obj.(pdf.Dict)
-				s, _ := pdf.Resolve(r, d["S"])
-				if got, _ := s.(pdf.String); !bytes.Equal(got, m) {
-					e.Fail("placeholder-unreadable", "the placeholder's string does not read back", info)
+					pages := w.Alloc()
+					w.GetMeta().Catalog.Pages = pages
+					w.Put(pages, pdf.Dict{"Type": pdf.Name("Pages"), "Kids": pdf.Array{}, "Count": pdf.Integer(0)})
+					ph := pdf.NewPlaceholder(w, len(m)+12)
+					refused := false
+					if early {
+						refused = ph.Set(value()) != nil
+					}
+					ref := w.Alloc()
+					if !refused {
+						if err := w.Put(ref, pdf.Dict{"S": ph, "T": pdf.String("other")}); err != nil {
+							refused = true
+						}
+					}
+					if !refused && !early {
+						refused = ph.Set(value()) != nil
+					}
+					if !refused && w.Close() != nil {
+						refused = true
+					}
+					if refused {
+						e.Count(true, key, "placeholder-string/refused")
+						continue
+					}
+					data := mf.data
+					if bytes.Contains(data, m) || bytes.Contains(bytes.ToLower(data), []byte(hex.EncodeToString(m))) {
+						e.Fail("placeholder-string-plaintext", "a String held by a pdf.Placeholder is written in plaintext into an encrypted file", info)
+						continue
+					}
+					r, err := pdf.NewReader(bytes.NewReader(data), int64(len(data)), &pdf.ReaderOptions{Password: "u"})
+					if err != nil {
+						e.Fail("placeholder-unreadable", err.Error(), info)
+						continue
+					}
+					obj, _ := r.Get(ref, true)
+					d, _ := obj.(pdf.Dict)
+					s, _ := pdf.Resolve(r, d["S"])
+					var so pdf.Object = s
+					if a, ok := s.(pdf.Array); ok && len(a) == 2 {
+						so = a[1]
+					}
+					if got, _ := so.(pdf.String); !bytes.Equal(got, m) {
+						e.Fail("placeholder-unreadable", "the placeholder's string does not read back", info)
+						continue
+					}
+					e.Count(true, key, "placeholder-string/encrypted-and-readable")
 				}
 			}
 		}
